@@ -23,6 +23,8 @@ def per_property():
     dirs = sorted(glob.glob(f"{V}/harness/C*/"))
     by = {}
     for d in dirs:
+        if not os.path.exists(d + "spec.json"):
+            continue
         s = json.load(open(d + "spec.json"))
         by.setdefault(s["property"], []).append((os.path.basename(d.rstrip("/")), s))
     for pid in sorted(by):
